@@ -1,7 +1,7 @@
 \* the switches set as the pinned code behaves: TLC is EXPECTED to report a violation (DESIGN 2.4)
 CONSTANTS
   Switches <- AsBuilt
-  Families = {"clause", "sections", "struct", "dup"}
+  Families = {"sections", "dup"}
   MaxSections = 2
 INIT Init
 NEXT Next
